@@ -361,4 +361,14 @@ def sf_sync_len_pack(ev, c):
     return VInt(z3.Function('sync_len_pack', T.I, T.I)(c.z))
 
 
+def sf_unchanged_view(ev, fr):
+    """no byte stored or removed: the chunk dictionary of the buffer is as before"""
+    st, old = ev.st, ev.old
+    cs = []
+    for suf in ('#has', '#val'):
+        key = 'Fragments.fragments' + suf
+        cs.append(z3.Select(st.heap[key], fr.z) == z3.Select(old.heap[key], fr.z))
+    return VBool(z3.And(cs))
+
+
 SPECFUNCS = {k[3:]: v for k, v in list(globals().items()) if k.startswith('sf_')}
